@@ -6,6 +6,7 @@ import (
 	"fmt"
 	"hash/fnv"
 
+	"github.com/glebziz/fs_db"
 	"github.com/glebziz/fs_db/internal/verif/refmodel"
 	"github.com/glebziz/fs_db/internal/verif/simrt"
 )
@@ -58,6 +59,9 @@ func init() {
 		}
 		c.Sched = genSched(r, 400)
 		c.Sched.MaxSteps = 800_000
+		if r.Intn(3) == 0 && simGrpcAvailable() {
+			c.Client = "simgrpc"
+		}
 		return c
 	}
 	createExec = func(c CreateCase, choices []int32) RunOut {
@@ -69,6 +73,9 @@ func init() {
 		fail := func(class, sig, detail string) {
 			if viol == nil {
 				viol = &Violation{Class: class, Signature: "C12|" + class + "|db-" + sig, Detail: detail}
+				if c.Client != "" {
+					viol.Signature += ",client=" + c.Client
+				}
 			}
 		}
 		faults := map[string]uint64{}
@@ -101,7 +108,11 @@ func init() {
 				}
 				w.SetCapacities(caps)
 			}
-			f, err := w.DB.Create(w.Ctx, c.Key)
+			var db fs_db.DB = w.DB
+			if c.Client == "simgrpc" && newSimGrpcClient != nil {
+				db = newSimGrpcClient(w)
+			}
+			f, err := db.Create(w.Ctx, c.Key)
 			if err != nil {
 				fail("error-class", "create", "Create failed: "+err.Error())
 				return
